@@ -6,6 +6,7 @@ import (
 	"bytes"
 	"errors"
 	"fmt"
+	"strings"
 	"time"
 
 	"github.com/gorilla/websocket"
@@ -31,7 +32,10 @@ func c04CloseBodies() []c04Close {
 	reasons := []struct {
 		n string
 		b []byte
-	}{{"none", nil}, {"ascii", []byte("bye")}, {"utf8", []byte("h\xc3\xa9\xe2\x82\xac")}, {"badutf8", []byte{'a', 0xff, 'b'}}, {"truncutf8", []byte{'a', 0xe2, 0x82}}}
+	}{{"none", nil}, {"ascii", []byte("bye")}, {"utf8", []byte("h\xc3\xa9\xe2\x82\xac")}, {"badutf8", []byte{'a', 0xff, 'b'}}, {"truncutf8", []byte{'a', 0xe2, 0x82}},
+		{"long2a", []byte(strings.Repeat("\u00e9", 61))}, {"long2b", []byte("a" + strings.Repeat("\u00e9", 61))},
+		{"long3a", []byte(strings.Repeat("\u20ac", 41))}, {"long3b", []byte("a" + strings.Repeat("\u20ac", 40))}, {"long3c", []byte("ab" + strings.Repeat("\u20ac", 40))},
+		{"long4", []byte("abc" + strings.Repeat("\U0001F600", 30))}}
 	for _, code := range []int{0, 999, 1000, 1001, 1002, 1003, 1004, 1005, 1006, 1007, 1008, 1009, 1010, 1011, 1012, 1013, 1014, 1015, 1016, 2999, 3000, 3999, 4000, 4999, 5000, 65535} {
 		for _, r := range reasons {
 			out = append(out, c04Close{fmt.Sprintf("%d/%s", code, r.n), wsref.CloseBody(code, string(r.b))})
